@@ -713,3 +713,35 @@ def gen_cmds(idx):
     _tag(m)
     m.tags.add("cmds")
     return m, {}
+
+
+def gen_chain(idx):
+    """a chain of 2-4 tasks that publish the same variable one after the other (alternating on / off, always the same value,
+    or distinct values) and a concurrent side task that publishes that variable, another one, or nothing; both end in a
+    `join: all` task that publishes what it saw.  Identical context entries recur along the chain."""
+    combos = [(k, pat, side) for k in (2, 3, 4) for pat in ("alternate", "same", "distinct") for side in ("on", "off", "other", "none")]
+    k, pat, side = combos[idx % len(combos)]
+    m = Model()
+    m.input = [("xs", [10, 20, 30]), ("n", 2), ("k", 2)]
+    m.vars = [("flag", "init"), ("other", "init.other"), ("seen", "unset")]
+    names = ["a%d" % i for i in range(k)]
+    for i, nm in enumerate(names):
+        t = Task(nm)
+        t.action = "ovf.ok"
+        val = {"alternate": ["on", "off"][i % 2], "same": "on", "distinct": "v%d" % i}[pat]
+        t.trans.append(Tr(0, cond=None, lang=("yaql", "jinja")[i % 2], pubs=[("flag", ("lit", val))], do=[names[i + 1] if i + 1 < k else "j"]))
+        m.tasks[nm] = t
+    c = Task("c")
+    c.action = "ovf.ok"
+    pubs = {"on": [("flag", ("lit", "on"))], "off": [("flag", ("lit", "off"))], "other": [("other", ("lit", "from_c"))], "none": []}[side]
+    c.trans.append(Tr(0, cond=None, lang="yaql", pubs=pubs, do=["j"]))
+    m.tasks["c"] = c
+    j = Task("j")
+    j.join = "all"
+    j.action = "ovf.ok"
+    j.trans.append(Tr(0, cond=None, lang="yaql", pubs=[("seen", ("ref", "flag"))], do=[]))
+    m.tasks["j"] = j
+    m.output = [("flag", ("ref", "flag"), "yaql"), ("other", ("ref", "other"), "jinja"), ("seen", ("ref", "seen"), "yaql")]
+    _tag(m)
+    m.tags |= {"chain", "join", "fork", "publish"}
+    return m, {}
